@@ -77,6 +77,33 @@ example : specSel ["DEPT", "GR", "RHOB", "NPHI"] ["NPHI", "ZZZ", "GR"] = [0, 1, 
 example : specSel ["DEPT", "GR", "RHOB"] ([] : List String) = [0, 1, 2] := by decide
 example : specSel ["DEPT", "GR", "RHOB"] ["ZZZ"] = [0] := by decide
 
+/-- adding the X axis twice (header, then data writer on the same set) is the same as adding it once -/
+theorem addXAxis_idem {Obj : Type} [DecidableEq Obj] (idents S : List Obj) :
+    addXAxis idents (addXAxis idents S) = addXAxis idents S := by
+  cases idents with
+  | nil => simp [addXAxis]
+  | cons x rest =>
+    by_cases h1 : S.isEmpty = true
+    · simp [addXAxis, h1]
+    · by_cases h2 : x ∈ S
+      · simp [addXAxis, h1, h2]
+      · simp [addXAxis, h1, h2]
+
+/-- **same_channels**, incremental use (`write_curve_section_to_las`, `write_array_section_header_to_las`,
+`write_array_section_data_to_las` called one by one, each with its OWN copy of the requested set, as the docstring
+of the data writer describes): the three lists are still the specified one, because the header and the data writer
+each add the X axis themselves. -/
+theorem same_channels_separate {Obj : Type} [DecidableEq Obj] (stringify : Obj → Obj) (idents S : List Obj)
+    (hne : idents ≠ []) (hnd : idents.Nodup) (hstr : ∀ i ∈ idents, stringify i = i) :
+    curveSel stringify idents S = specSel idents S ∧
+    headSel idents (addXAxis idents S) = specSel idents S ∧
+    rowSel idents (addXAxis idents S) = specSel idents S := by
+  have h := same_channels stringify idents S hne hnd hstr
+  simp only [writeSel, addXAxis_idem, Selection.mk.injEq] at h
+  exact h
+
+example : rowSel ["DEPT", "GR", "RHOB"] (addXAxis ["DEPT", "GR", "RHOB"] ["RHOB"]) = [0, 2] := by decide
+
 /-- The hypothesis `stringify i = i` matters: with integer identities (API use only) and a set holding the `str` form,
 the curve section lists the channel while heading and rows do not (and the other way round for the raw integer). -/
 example : writeSel (fun o : Nat ⊕ String => match o with | .inl n => .inr (toString n) | o => o)
